@@ -197,6 +197,8 @@ type EOp struct {
 	Filter *fileadapter.Filter
 	// NilFilter: pass an untyped nil filter
 	NilFilter bool
+	// BadFilter: pass a value that is not a *Filter
+	BadFilter bool
 	// Persist: the shouldPersist predicate of a Self call: "n" (nil), "0", "1"
 	Persist string
 }
@@ -287,6 +289,9 @@ func (o EOp) Line() string {
 	case "loadtext":
 		return "loadtext " + o.What + " " + proto.Enc(o.Text)
 	case "loadf", "loadif":
+		if o.BadFilter {
+			return o.Kind + " bad"
+		}
 		return o.Kind + " " + filterTok(o.Filter, o.NilFilter)
 	case "savefa":
 		return "savefa"
@@ -519,6 +524,9 @@ func (s *Sess) Exec(o EOp) (obs string) {
 		var filter interface{}
 		if !o.NilFilter && o.Filter != nil {
 			filter = o.Filter
+		}
+		if o.BadFilter {
+			filter = []string{"alice"}
 		}
 		var err error
 		if o.Kind == "loadf" {
